@@ -97,6 +97,12 @@ def scenarios(tier):
     S.append(mk("pair-subchannel-turns-dev", cfg([[("set_code", CODE), ("dilate",), ("sub_connect", "p")], [("close",)]],
                                                  [[("set_code", CODE), ("dilate",), ("sub_listen", "p")], [("close",)]], fine=(0, 1),
                                                  explored=("down", "up", "api", "connect", "stopfin", "turn") + NET), dev_bound=2 if q else 3, max_depth=300))
+    # close() of one side only (the peer stays), with eventual turns explored: whatever waits in the eventual queue when close()
+    # arrives (e.g. the accept of a connection that has just finished its handshake), nothing stays open afterwards
+    S.append(mk("pair-close0-turns-dev", cfg(A, B, fine=(0, 1), explored=("down", "up", "api", "connect", "stopfin", "turn") + NET),
+                dev_bound=2 if q else 3, max_depth=300))
+    S.append(mk("pair-close1-turns-dev", cfg(B, A, fine=(0, 1), explored=("down", "up", "api", "connect", "stopfin", "turn") + NET),
+                dev_bound=2 if q else 3, max_depth=300))
     # peer connection lost while shutting down
     S.append(mk("pair-close0-nlose-dev", cfg(A, B, fine=(0, 1), nlose=1, explored=("down", "up", "api", "connect", "stopfin", "nlose") + NET),
                 dev_bound=3 if q else 4, max_depth=250))
